@@ -34,7 +34,7 @@ package unshare
 // C04: the launch always drops capabilities, sets no_new_privs and asks for exactly the unshare namespaces.
 // C09: the verdict equals the documented status table (limits by measured usage first).
 // C12: after a successful start every return path kills the group and reaps it.
-//@ func runner/unshare.(*Runner).Run props C04 C09 C12
+//@ func runner/unshare.(*Runner).Run props C04 C08 C09 C12
 //@   arith bv
 //@   requires r != nil && c != nil && len(r.Seccomp) <= 65535
 //@   requires forall j int :: soff(r.Files) <= j && j < soff(r.Files) + len(r.Files) ==> cell(r.Files, j) < 2147483648 || cell(r.Files, j) == 18446744073709551615
@@ -46,8 +46,8 @@ package unshare
 //@   ensures @C09 int(result.Status) == 8 ==> len(result.Error) > 0
 //@   callsite return: assert @C09 uint64(userMem) == uint64(rusage.Maxrss << 10)
 //@   callsite return: assert @C09 int(result.Status) != 8 ==> result.Time == userTime && result.Memory == userMem
-//@   callsite return: assert @C09 int(result.Status) != 8 && uint64(userMem) > uint64(r.Limit.MemoryLimit) ==> int(result.Status) == 3
-//@   callsite return: assert @C09 int(result.Status) != 8 && uint64(userMem) <= uint64(r.Limit.MemoryLimit) && int64(userTime) > int64(r.Limit.TimeLimit) ==> int(result.Status) == 2
-//@   callsite return: assert @C09 int(result.Status) != 8 && uint64(userMem) <= uint64(r.Limit.MemoryLimit) && int64(userTime) <= int64(r.Limit.TimeLimit) && ws_exited(uint32(wstatus)) ==> int(result.Status) == status_of_exit(ws_exitcode(uint32(wstatus))) && result.ExitStatus == ws_exitcode(uint32(wstatus))
-//@   callsite return: assert @C09 int(result.Status) != 8 && uint64(userMem) <= uint64(r.Limit.MemoryLimit) && int64(userTime) <= int64(r.Limit.TimeLimit) && ws_signaled(uint32(wstatus)) ==> int(result.Status) == status_of_signal(ws_termsig(uint32(wstatus))) && result.ExitStatus == ws_termsig(uint32(wstatus))
+//@   callsite return: assert @C08 @C09 int(result.Status) != 8 && uint64(userMem) > uint64(r.Limit.MemoryLimit) ==> int(result.Status) == 3
+//@   callsite return: assert @C08 @C09 int(result.Status) != 8 && uint64(userMem) <= uint64(r.Limit.MemoryLimit) && int64(userTime) > int64(r.Limit.TimeLimit) ==> int(result.Status) == 2
+//@   callsite return: assert @C08 @C09 int(result.Status) != 8 && uint64(userMem) <= uint64(r.Limit.MemoryLimit) && int64(userTime) <= int64(r.Limit.TimeLimit) && ws_exited(uint32(wstatus)) ==> int(result.Status) == status_of_exit(ws_exitcode(uint32(wstatus))) && result.ExitStatus == ws_exitcode(uint32(wstatus))
+//@   callsite return: assert @C08 @C09 int(result.Status) != 8 && uint64(userMem) <= uint64(r.Limit.MemoryLimit) && int64(userTime) <= int64(r.Limit.TimeLimit) && ws_signaled(uint32(wstatus)) ==> int(result.Status) == status_of_signal(ws_termsig(uint32(wstatus))) && result.ExitStatus == ws_termsig(uint32(wstatus))
 //@   loop 0: invariant r == old(r) && int(status) == 1 && cancel != nil
